@@ -7,7 +7,8 @@
 (*                                                                         *)
 (* Worker:  wait (in epoll_wait) -> woken (w.after_wait) -> read           *)
 (*          (w.after_read: kick consumed, `enabled` sampled) ->            *)
-(*          predispatch (w.before_dispatch) -> dispatch -> wait            *)
+(*          predispatch (w.before_dispatch) -> indispatch (inside the      *)
+(*          backend's handle_event: w.in_dispatch) -> wait                 *)
 (* Control: idle -> [message] -> (setkick (c.after_setkick: a starting        *)
 (*          message has installed its descriptor) ->) state (c.after_state: *)
 (*          flag changed) ->                                                *)
@@ -82,12 +83,19 @@ WCheck == /\ wpc = "read"
           /\ Cmd("w")
           /\ UNCHANGED <<ready, enabled, haskick, reg, counter, wEnabled, cpc, cop, next, kicks, quiet, owed, p1, p2, died, spins>>
 
+\* the backend's handler is entered (the dispatch is recorded here); it returns in a separate step, so that kicks and control
+\* messages can fall into the time the handler runs
 WDispatch == /\ wpc = "predispatch"
-             /\ wpc' = "wait"
+             /\ wpc' = "indispatch"
              /\ p1' = (p1 \/ quiet)                      \* P1: handler entered after a disabling reply
              /\ owed' = IF ~quiet THEN FALSE ELSE owed   \* a dispatch before any disabling reply serves the kicks raised so far
              /\ Cmd("w")
              /\ UNCHANGED <<ready, enabled, haskick, reg, counter, wEnabled, cpc, cop, next, kicks, quiet, p2, died, spins>>
+
+WLeave == /\ wpc = "indispatch"
+          /\ wpc' = "wait"
+          /\ Cmd("w")
+          /\ UNCHANGED <<ready, enabled, haskick, reg, counter, wEnabled, cpc, cop, next, kicks, quiet, owed, p1, p2, died, spins>>
 
 \* ---- control thread ------------------------------------------------------------------------
 \* the frontend sends the next scripted message; the daemon thread runs up to the first hold point
@@ -139,7 +147,7 @@ CReply == /\ cpc = "ctl"
 \* descriptor): the replay then lets it run on instead of parking it until the schedule's next worker command, so that what it
 \* does with the wake-up (consume a kick without processing it ...) becomes part of the recorded behaviour.
 WIdle == wpc = "wait" /\ ~(reg /\ counter > 0 /\ (enabled \/ spins < 1))
-Steps == Kick \/ Wake \/ WRead \/ WCheck \/ WDispatch \/ Send \/ CReady \/ CCtl \/ CDropKick \/ CReply
+Steps == Kick \/ Wake \/ WRead \/ WCheck \/ WDispatch \/ WLeave \/ Send \/ CReady \/ CCtl \/ CDropKick \/ CReply
 Next == Steps /\ wfree' = IF sched' # sched THEN Append(wfree, WIdle') ELSE wfree
 Spec == Init /\ [][Next]_vars
 
